@@ -310,6 +310,37 @@ def r02c(ctx):
                     if len(ivs) == 1 and len(oth) == 1:
                         R = poly(T, oth[0])
                         how = 'pi[i] = (r + i) mod n'
+    if R is None:
+        # wrapping counter: idx = r; push_back(idx); if (++idx == n) idx = 0;  with 0 <= r < n
+        for nid, ev in a.all_events('mcall'):
+            if not (ev[1].endswith('::push_back') and ev[3]):
+                continue
+            P = ev[3][0]
+            pn = T.node(P)
+            if pn[0] != 'phi':
+                continue
+            src = list(T.phi_src.get((pn[1], pn[2]), ()))
+            joins = [x for x in src if T.op(x) == 'phi']
+            inits = [x for x in src if T.op(x) != 'phi']
+            if len(joins) != 1 or len(inits) != 1:
+                continue
+            jn = T.node(joins[0])
+            jsrc = set(T.phi_src.get((jn[1], jn[2]), ()))
+            inc = T.mk('op', '+', T.int(1), P)
+            inc2 = T.mk('op', '+', P, T.int(1))
+            step = inc if inc in jsrc else (inc2 if inc2 in jsrc else None)
+            if step is None or jsrc != {step, T.int(0)}:
+                continue
+            r0 = inits[0]
+            rn = T.node(r0)
+            below_n = (rn[0] == 'callr' and rn[1].split('::')[-1] in ('tmcg_mpz_srandom_mod', 'tmcg_mpz_wrandom_mod') and rn[2] == npar) or \
+                (rn[0] == 'op' and rn[1] == '%' and rn[3] == npar)
+            # the reset to 0 happens exactly when the incremented counter has reached n
+            resets = [n2 for n2, e2 in a.all_events('write') if T.is_int(e2[2], 0) and e2[1] == pn[2]]
+            guarded = [n2 for n2 in resets if a.rel('==', step, npar) in a.instate[n2].facts]
+            if below_n and guarded and len(guarded) == len(resets):
+                R = poly(T, r0)
+                how = 'counter started at r < n, advanced by one and wrapped to 0 exactly at n'
     calls = list(a.all_events('call'))
     iota = [ev for nid, ev in calls if ev[1].split('::')[-1] == 'iota' and len(ev[2]) == 3 and T.is_int(ev[2][2], 0)]
     rot = [ev for nid, ev in calls if ev[1].split('::')[-1] == 'rotate' and len(ev[2]) == 3]
@@ -325,7 +356,12 @@ def r02c(ctx):
                 padd(R, poly(T, off), -1)
                 how = 'identity rotated left by n - x'
     okp = R is not None
-    (ctx.ok if okp else ctx.bad)('R02c', 'R02c:random_rotation:fill', how if okp else 'rotation is not filled with (r + i) mod n by any recognised idiom', f)
+    if okp:
+        ctx.ok('R02c', 'R02c:random_rotation:fill', how, f)
+    else:
+        # an unrecognised construction is not a proof of a violation: undecided, i.e. analysis broken
+        ctx.note('R02c', 'R02c:random_rotation:fill', 'rotation is not filled by any recognised idiom ((r + i) mod n, iota + rotate, wrapping counter): not decided', f)
+    ctx.floor('R02c:rotation-idiom-recognised', 1 if okp else 0, 1)
     n += 1
     okr = False
     if R is not None:
@@ -339,8 +375,11 @@ def r02c(ctx):
                 rest = {m: c for m, c in d.items() if c}
                 if all(m == (npar,) for m in rest) and all(c == int(c) for c in rest.values()) and rest:
                     okr = True
-    (ctx.ok if okr else ctx.bad)('R02c', 'R02c:random_rotation:offset', 'returned offset is congruent to n - r' if okr else
-                                 'returned rotation offset is not (n - r) mod n for the shift r the rotation was filled with', f)
+    if R is None:
+        ctx.note('R02c', 'R02c:random_rotation:offset', 'shift of the rotation not determined: offset not decided', f)
+    else:
+        (ctx.ok if okr else ctx.bad)('R02c', 'R02c:random_rotation:offset', 'returned offset is congruent to n - r' if okr else
+                                     'returned rotation offset is not (n - r) mod n for the shift r the rotation was filled with', f)
     # Fisher-Yates: cells are written only by the identity fill and by a swap of two cells
     f = prog.fn('random_permutation_fast', 0)
     a = ctx.analysis(f)
